@@ -1347,12 +1347,17 @@ func (fa *FuncAn) LeafValues(v ssa.Value) []leafValue {
 					sub := NewFuncAnCtx(a.W, g, a.CallArgs(call))
 					sub.R.inlineDepth = a.R.inlineDepth + 1
 					found := false
+					n := g.Signature.Results().Len()
 					for _, ex := range sub.Exits() {
 						rs := RetResults(ex.Ret)
-						if idx < len(rs) {
-							found = true
-							walk(sub, rs[idx], depth+1)
+						if idx >= len(rs) {
+							continue
 						}
+						if idx < n-1 && n >= 2 && g.Signature.Results().At(n-1).Type().String() == "error" && sub.knownNonNilErr(rs[n-1], ex.In) {
+							continue
+						}
+						found = true
+						walk(sub, rs[idx], depth+1)
 					}
 					if found {
 						return
